@@ -12,7 +12,7 @@ require (
 	github.com/anishathalye/porcupine v1.3.0
 	github.com/censync/go-dto v1.0.6 // indirect
 	github.com/censync/go-validator v1.0.0 // indirect
-	github.com/corestario/kyber v1.6.0 // indirect
+	github.com/corestario/kyber v1.6.0
 	github.com/ferranbt/fastssz v0.1.1 // indirect
 	github.com/golang-jwt/jwt v3.2.2+incompatible // indirect
 	github.com/golang/snappy v0.0.4 // indirect
